@@ -1,0 +1,27 @@
+//go:build verif
+
+package keeper
+
+import (
+	"mods.irisnet.org/modules/service/types"
+)
+
+// VerifWrapCallbacks lets the verification harness (property C18, random module) observe the
+// invocations of the callbacks a module registered with the service keeper: the registered
+// functions are replaced by wrap(registered). A module that registered nothing stays
+// unregistered. Compiled only with the build tag `verif`; add-only.
+func (k Keeper) VerifWrapCallbacks(
+	moduleName string,
+	wrapResp func(types.ResponseCallback) types.ResponseCallback,
+	wrapState func(types.StateCallback) types.StateCallback,
+) (hadResp, hadState bool) {
+	if cb, ok := k.respCallbacks[moduleName]; ok && wrapResp != nil {
+		k.respCallbacks[moduleName] = wrapResp(cb)
+		hadResp = true
+	}
+	if cb, ok := k.stateCallbacks[moduleName]; ok && wrapState != nil {
+		k.stateCallbacks[moduleName] = wrapState(cb)
+		hadState = true
+	}
+	return
+}
